@@ -147,7 +147,7 @@ def finish(engine, prop, tier, seed, runs, res, wall, write_evidence=True, diges
         "components": COMPONENTS,
         "known_findings_matched": dict(sorted(seen_known.items())),
     }
-    for extra in ("distinct_switch_sites", "context_switches", "late_instrumented", "lock_ops", "overlap_runs"):
+    for extra in ("model_states", "distinct_switch_sites", "context_switches", "late_instrumented", "lock_ops", "overlap_runs"):
         vals = [r[extra] for r in good if extra in r]
         if vals:
             if isinstance(vals[0], (list, set, tuple)):
